@@ -51,6 +51,15 @@ THEOREMS = [
     "IrVerif.Clone.C13_faithful_function",
     "IrVerif.Clone.C13_faithful_model",
     "IrVerif.Clone.C13_faithful_observe",
+    "IrVerif.Clone.C13_frame_ext",
+    "IrVerif.Clone.C13_frame_clone_edited_ext",
+    "IrVerif.Clone.C13_frame_function_ext",
+    "IrVerif.Clone.C13_functionalize_ext",
+    "IrVerif.Clone.C13_frame_orig_edited_ext",
+    "IrVerif.Clone.C13_frame_orig_edited_model_ext",
+    "IrVerif.Clone.C13_frame_orig_edited_function_ext",
+    "IrVerif.Clone.C13_closed_sharding",
+    "IrVerif.Clone.C13_closed_sharding_model",
 ]
 ASSUMPTIONS = [
     "hand-written model IrVerif.Clone of _cloner.py / the clone entry points / the constructors they call; tied to the "
@@ -367,7 +376,8 @@ class Heap:
         if kind == "val":
             return {
                 "k": "val", "name": o.name, "doc": o.doc_string,
-                "producer": R("node", o.producer()), "index": o.index(),
+                # a detached former node output has `_index == -1` (Node.resize_outputs); the model says `none`
+                "producer": R("node", o.producer()), "index": None if o.index() == -1 else o.index(),
                 "uses": [[R("node", u.node), u.idx] for u in o._uses],
                 "graph": R("graph", o._graph), "in": o._is_graph_input, "out": o._is_graph_output,
                 "init": o._is_initializer,
@@ -958,6 +968,38 @@ def apply_edit(heap: Heap, b: Built, e):
             setattr(mo, e["field"], e["s"])
             hdr = (mo.ir_version, mo.producer_name, mo.producer_version, mo.domain, mo.model_version, mo.doc_string)
             e["p"] = heap.payload(("hdr", hdr))
+        elif k == "appendInput":
+            O(e["g"]).inputs.append(O(e["v"]))
+        elif k == "popInput":
+            O(e["g"]).inputs.pop()
+        elif k == "setInit":
+            O(e["g"]).initializers[e["key"]] = O(e["v"])
+        elif k == "delInit":
+            del O(e["g"]).initializers[e["key"]]
+        elif k == "registerInit":
+            O(e["g"]).register_initializer(O(e["v"]))
+        elif k == "sort":
+            O(e["g"]).sort()
+        elif k == "insertBefore":
+            O(e["g"]).insert_before(O(e["anchor"]), O(e["n"]))
+        elif k == "insertAfter":
+            O(e["g"]).insert_after(O(e["anchor"]), O(e["n"]))
+        elif k == "replaceAllUses":
+            O(e["v"]).replace_all_uses_with(O(e["r"]), replace_graph_outputs=e["outs"])
+        elif k == "resizeInputs":
+            O(e["n"]).resize_inputs(e["size"])
+        elif k == "resizeOutputs":
+            O(e["n"]).resize_outputs(e["size"])
+        elif k == "putFunc":
+            mo, f = O(e["mo"]), O(e["f"])
+            keys = list(mo.functions.keys())
+            e["idx"] = keys.index(f.identifier()) if f.identifier() in keys else None
+            mo.functions[f.identifier()] = f
+        elif k == "delFunc":
+            mo = O(e["mo"])
+            keys = list(mo.functions.keys())
+            e["idx"] = e["pos"] if e["pos"] < len(keys) else len(keys)
+            del mo.functions[keys[e["pos"]] if e["pos"] < len(keys) else ("no", "such", "function")]
         elif k == "setDev":
             cfgs = []
             for d in e["devspec"]:
@@ -981,7 +1023,7 @@ def apply_edit(heap: Heap, b: Built, e):
         return "raised"
 
 
-_ID_FIELDS = {"v", "o", "n", "g", "f", "mo"}
+_ID_FIELDS = {"v", "o", "n", "g", "f", "mo", "r", "anchor"}
 # edits whose effect lies outside the model (in-place state of Attr objects): applied to the real objects and
 # judged by the oracle, not sent to the model
 ORACLE_ONLY = {"attrMetaSet"}
@@ -1302,9 +1344,23 @@ def gen_edits(rng, heap: Heap, b: Built, side_root, n_edits):
                 kinds += ["removeNode", "appendNode"]
             if vv:
                 kinds += ["appendOutput"]
-        if not kinds:
+        # the extended alphabet (Edit2): about a third of the edits
+        kinds2 = []
+        if gv:
+            kinds2 += ["popInput", "delInit", "sort"]
+            if vv:
+                kinds2 += ["appendInput", "setInit", "setInit", "registerInit"]
+            if nv:
+                kinds2 += ["insertBefore", "insertAfter"]
+        if vv:
+            kinds2 += ["replaceAllUses", "replaceAllUses"]
+        if nv:
+            kinds2 += ["resizeInputs", "resizeOutputs"]
+        if mv and fv:
+            kinds2 += ["putFunc", "delFunc"]
+        if not kinds and not kinds2:
             break
-        k = rng.choice(kinds)
+        k = rng.choice(kinds2) if kinds2 and (not kinds or rng.random() < 0.35) else rng.choice(kinds)
         e = {"e": k}
         if k == "setName":
             e.update(v=rng.choice(vv), s=rng.choice([f"renamed{fresh}", "w1", "x1", "", None]))
@@ -1383,6 +1439,42 @@ def gen_edits(rng, heap: Heap, b: Built, side_root, n_edits):
             e.update(mo=rng.choice(mv), field=rng.choice(["producer_name", "doc_string", "domain"]),
                      s=rng.choice([None, f"hdr{fresh}"]))  # fmt: skip
             fresh += 1
+        elif k == "appendInput":
+            e.update(g=rng.choice(gv), v=rng.choice(vv))
+        elif k == "popInput":
+            e.update(g=rng.choice(gv))
+        elif k in ("setInit", "registerInit"):
+            g = rng.choice(gv)
+            gr = heap.obj(g)
+            # mostly values that can be initializers (no producer): inputs / initializers of that graph
+            cands = [R[id(x)] for x in list(gr.inputs) + list(gr.initializers.values()) if id(x) in R]
+            v = rng.choice(cands) if cands and rng.random() < 0.7 else rng.choice(vv)
+            e.update(g=g, v=v)
+            if k == "setInit":
+                nm = heap.obj(v).name
+                e.update(key=nm if (nm and rng.random() < 0.75) else rng.choice(["w1", "fresh_key", ""]))
+        elif k == "delInit":
+            g = rng.choice(gv)
+            e.update(g=g, key=rng.choice(list(heap.obj(g).initializers.keys()) + ["missing"]))
+        elif k == "sort":
+            plain = [g for g in gv if not any(a.type in (ir.AttributeType.GRAPH, ir.AttributeType.GRAPHS)
+                                              for n in heap.obj(g) for a in n.attributes.values() if not a.is_ref())]
+            e.update(g=rng.choice(plain) if plain and rng.random() < 0.9 else rng.choice(gv))
+        elif k in ("insertBefore", "insertAfter"):
+            g = rng.choice(gv)
+            own = [R[id(x)] for x in heap.obj(g) if id(x) in R]
+            e.update(g=g, anchor=rng.choice(own) if own and rng.random() < 0.85 else rng.choice(nv),
+                     n=rng.choice(own) if own and rng.random() < 0.5 else rng.choice(nv))
+        elif k == "replaceAllUses":
+            e.update(v=rng.choice(vv), r=rng.choice(vv), outs=rng.random() < 0.6)
+        elif k == "resizeInputs":
+            e.update(n=rng.choice(nv), size=rng.randrange(0, 5))
+        elif k == "resizeOutputs":
+            e.update(n=rng.choice(nv), size=rng.randrange(0, 4))
+        elif k == "putFunc":
+            e.update(mo=rng.choice(mv), f=rng.choice(fv))
+        elif k == "delFunc":
+            e.update(mo=rng.choice(mv), pos=rng.randrange(0, 3))
         elif k == "setDev":
             n = rng.choice(nv)
             node = heap.obj(n)
@@ -1631,7 +1723,7 @@ def map_ids(e, m):
         elif k == "dev":
             r[k] = [{"cfg": d["cfg"], "specs": [[None if v is None else m.get(v, 10**9), p] for v, p in d["specs"]]}
                     for d in x]  # fmt: skip
-        elif k in ("devspec", "field"):
+        elif k in ("devspec", "field", "pos"):
             continue
         else:
             r[k] = x
@@ -1680,7 +1772,9 @@ def replay_seed(seed: int, size: int = 4, n_hist: int = 2, n_edits: int = 6):
 
 def compare_cases(ctx: Ctx, results):
     # round 1: the clone itself
-    reqs = [{"m": "clone.run", "world": r["world0"], "script": [{"op": "wellFormed"}, r["step"]]} for r in results]
+    reqs = [{"m": "clone.run", "world": r["world0"],
+             "script": [{"op": "wellFormed"}, {"op": "wellFormed2"}, r["step"], {"op": "devLocal"}]}
+            for r in results]
     outs = lean_batch_parallel(reqs)
     reqs2, idx2 = [], []
     for r, o in zip(results, outs):
@@ -1694,7 +1788,15 @@ def compare_cases(ctx: Ctx, results):
             # hypothesis `wellFormed w` of C13_frame_orig_edited must hold of every abstracted real heap
             ctx.disagree("abstracted heap has a dangling pointer (wellFormed = false)", {"spec": spec}, o["outcomes"][0], None)
             continue
-        oc = o["outcomes"][1]
+        if o["outcomes"][1]["r"] != "ok":
+            # hypothesis `wellFormed2 w` of C13_frame_orig_edited_ext
+            ctx.disagree("abstracted heap has a dangling pointer (wellFormed2 = false)", {"spec": spec}, o["outcomes"][1], None)
+            continue
+        ctx.count("hyp_wellFormed2=True")
+        # hypothesis `devLocalW w` of C13_closed_sharding (evaluated on the heap after the clone step: the clone must
+        # satisfy it again whenever the source did)
+        ctx.count(f"hyp_devLocalW={o['outcomes'][3]['r'] == 'ok'}")
+        oc = o["outcomes"][2]
         ctx.case(spec, nontrivial, sample={"target": t, "graph": spec["graph"]["name"], "outcome": r["outcome"]},
                  target=r["tag"], outcome=r["outcome"], model_outcome=oc["r"],
                  nodes=min(len(spec["graph"]["nodes"]), 6))  # fmt: skip
@@ -1750,6 +1852,27 @@ def compare_cases(ctx: Ctx, results):
         if o["defined"] and not (o.get("equal") and o.get("same_after")):
             ctx.disagree("serGraph(clone) != serGraph(original) although defined (contradicts C13_faithful_serialize)",
                          {"spec": r["spec"]}, o, None)  # fmt: skip
+    # the scope walker (C13_clone_succeeds / C13_clone_raises_iff): its verdict on the SOURCE heap must be the outcome
+    # of the real clone and of the model's clone, message included, unless it answers `irregular` (no claim)
+    vreqs, vres = [], []
+    for r, o in zip(results, outs):
+        if r["step"]["op"] == "graphClone" and "err" not in o and o["outcomes"][0]["r"] == "ok" and o["outcomes"][1]["r"] == "ok":
+            vreqs.append({"m": "clone.verdict", "world": r["world0"], "g": r["step"]["g"], "allow": r["step"]["allow"]})
+            vres.append((r, o["outcomes"][2]))
+    for (r, oc), v in zip(vres, lean_batch_parallel(vreqs)):
+        if "err" in v:
+            ctx.disagree("driver error (verdict)", {"spec": r["spec"]}, v, None)
+            continue
+        ctx.count(f"verdict={v['v']}:real={r['outcome']}")
+        if v["v"] == "irregular":
+            ctx.count(f"verdict_irregular_because={v.get('why')}")
+            continue
+        if v["v"] != oc["r"] or (v["v"] in ("raised", "unsupported") and v.get("why") != oc.get("why")):
+            ctx.disagree(f"walker verdict {v['v']} ({v.get('why')}) but the model's clone answers {oc['r']} ({oc.get('why')})",
+                         {"spec": r["spec"]}, v, oc)
+        elif v["v"] in ("ok", "raised") and v["v"] != r["outcome"]:
+            ctx.disagree(f"walker verdict {v['v']} ({v.get('why')}) but the real clone {r['outcome']} ({r.get('exc')})",
+                         {"spec": r["spec"]}, v, r["outcome"])
     outs2 = lean_batch_parallel(reqs2)
     for (r, h, mroots, iroots), o in zip(idx2, outs2):
         spec = r["spec"]
@@ -1766,6 +1889,9 @@ def compare_cases(ctx: Ctx, results):
         h = dict(h, edits=[h["edits"][i] for i in keep], outcomes=[h["outcomes"][i] for i in keep])
         if via_functionalize:
             ctx.count("via_model_functionalize")
+            if o.get("declined"):
+                ctx.count("model_unsupported_edit")
+                continue
         elif "unsupported" in mo:
             ctx.count("model_unsupported_edit")
             continue
